@@ -191,17 +191,18 @@ PROPS = {
         "level_note": "Trusted: Lean kernel; SQLite and shims. Modelled, not verified: the IR-to-IR transformers themselves (table path joins, renaming) are observed through execution only.",
     },
     "C04": {
-        "lean_modules": ["QrlewModel.Props.C04"],
+        "lean_modules": ["QrlewModel.Props.C04", "QrlewModel.Props.C04Keys"],
         "streams": [
             {"name": "limit", "n_quick": 3000, "n_thorough": 150000, "min_per_proc": 100},
+            {"name": "taukeys", "n_quick": 3000, "n_thorough": 120000, "compare": True, "min_per_proc": 100},
             {"name": "c04", "n_quick": 1200, "n_thorough": 50000, "compare": False, "min_per_proc": 50},
         ],
-        "rule": "limit: (unit, key) tables (1-5 units x 1-8 keys, 2/3 density), K in 1..4: the real limit_col_contributions relation executed on SQLite with a seeded RANDOM() and with constant draws (all ranks tie); per-unit row counts ≤ K, and under ties compared with the Lean rank-filter model; non-trivial = some unit had more than K groups. "
+        "rule": "taukeys (model ≡ implementation): tables v(uid, key, amt) with 1-13 units, common and rare keys, units spread over up to 6 keys; DP GROUP BY key (with sum / count, without aggregate, DISTINCT) x (ε, δ, share, max groups 1/2/3/6), hashed or plain unit: the real rewriting executed on SQLite with RANDOM() ≡ 1 (all contribution ranks tie, count noise exactly 0); the released key set compared with Qrlew.TauKeys.releasedKeys using the threshold read off the relation (τ between 1 and 15); on the implementation itself: a released key is held by more than τ units. limit: (unit, key) tables (1-5 units x 1-8 keys, 2/3 density), K in 1..4: the real limit_col_contributions relation executed on SQLite with a seeded RANDOM() and with constant draws (all ranks tie); per-unit row counts ≤ K, and under ties compared with the Lean rank-filter model; non-trivial = some unit had more than K groups. "
                 "c04: grouped queries on private-valued keys (and public+private key pairs, filters, joins) x DpParameters (ε, δ, share, max groups) x databases of 5-600 units: τ and the count noise read off the IR vs an independent computation (Acklam normal quantile), and execution with noise neutralised: a released key must be held by more than τ units",
         "trusted_base": COMMON_TRUST + ["SQLite 3.40 + harness shims as executor", "Acklam's approximation of the normal quantile (relative error 1e-9) as independent reference for τ", "Mathlib reals"],
         "assumptions": ["the rank filter is sound only if the SQL engine evaluates RANDOM() once per row of the relation that both sides of the self-join read; this is observed on SQLite only and cannot be exhibited by the model", "Φ⁻¹ is monotone with Φ⁻¹(1/2) = 0 (so the quantile factor is ≥ 0 for (1-δ)^(1/K) ≥ 1/2)"],
         "technique": "Lean 4 proof (a unit keeps at most K groups for every rank assignment; τ ≥ 1; singleton keys never released with non-positive noise) + execution of the real limiting / thresholding relations on SQLite + independent recomputation of τ",
-        "level_text": "Theorems (Props/C04.lean): for any list of random ranks (ties allowed) the rank filter keeps at most K rows of a unit; τ = 1 + σ·q ≥ 1 for σ, q ≥ 0; a key with distinct-unit count 1 is not released when the noise draw is ≤ 0. The real limit_col_contributions and tau-thresholding relations are executed on SQLite (seeded and constant draws); τ and σ in the rewritten query are compared with an independent computation from (ε·share, δ·share, K).",
+        "level_text": "Theorems (Props/C04Keys.lean) on the model of the whole key-release pipeline (distinct (key, unit) pairs, contribution limiting, noisy count, threshold) that the taukeys stream compares with the real rewriting: for every table, rank assignment, noise draw, K and τ, a released key is held by a number of distinct units that together with the noise exceeds τ (released_needs_units), no unit is left in more than K groups (limited_per_unit), and a key held by a single unit is not released when the draw is ≤ 0 and τ ≥ 1 (singleton_never_released). Theorems (Props/C04.lean): for any list of random ranks (ties allowed) the rank filter keeps at most K rows of a unit; τ = 1 + σ·q ≥ 1 for σ, q ≥ 0; a key with distinct-unit count 1 is not released when the noise draw is ≤ 0. The real limit_col_contributions and tau-thresholding relations are executed on SQLite (seeded and constant draws); τ and σ in the rewritten query are compared with an independent computation from (ε·share, δ·share, K).",
         "level_note": "Trusted: Lean kernel; SQLite; harness. Named runtime behaviour the model cannot exhibit: per-reference re-evaluation of RANDOM() by an SQL engine.",
     },
     "C07": {
